@@ -118,10 +118,16 @@ def mk_script(api, space_kind):
     seed = api.int("seed", 0, 2**31 - 1)
     pol = api.enum("policy", "policy", POLICIES)
     mode = api.enum("mode", "mode", MODES)
-    script = S.RDScript(system, ts, time_step=dt, t_max=tmax, sampling_policy=pol, sampling_interval=si,
+    # the step, the end time and the sampling interval are stated in a units system of their own (a quantity keeps its units)
+    U = api.mod("units")
+    tq_us = M.mk_system(api, "tq")
+
+    def tq(v):
+        return U.UnitValue(v, U.Units(tq_us, U.time_units_dimensions()))
+    script = S.RDScript(system, ts, time_step=tq(dt), t_max=tq(tmax), sampling_policy=pol, sampling_interval=tq(si),
                         rng_seed=seed, init_state_processing=mode, units_system=sc_us)
     info = dict(net=net, g=g, n=n, st=st, ch=ch, sys_us=sys_us, sc_us=sc_us, nt=nt, ts=ts, dt=dt, tmax=tmax, si=si,
-                seed=seed, pol=pol, mode=mode, E=E)
+                seed=seed, pol=pol, mode=mode, E=E, tq_us=tq_us)
     return script, info
 
 
@@ -143,10 +149,15 @@ def marshal_case(space_kind, requires_molecules):
         script, I = mk_script(api, space_kind)
         lib = recording_lib(api)
         eng = L.LibRDEngine(lib, option=opt, requires_molecules=requires_molecules)
+        us_before = {k: script.units_system[k] for k in KINDS}
         out = api.call(lambda: eng.setup(script))
         api.check(P + "/setup_ok", out.ok, "raised %r" % (out.exc,))
         if not out.ok:
             return
+        # frame: setting an engine up does not change the caller's script (its units system in particular: the engine works
+        # on a copy when it needs molecules)
+        for k in KINDS:
+            api.check(P + "/script-units-not-changed-by-setup." + k, api.eq(script.units_system[k], us_before[k]))
         fname = "engineexport_initialize_" + space_kind
         calls = [c for c in lib.calls if c[0] == fname]
         api.check(P + "/one_initialisation_call", len(calls) == 1 and len(lib.calls) == 1)
@@ -209,9 +220,10 @@ def marshal_case(space_kind, requires_molecules):
         api.check(P + "/sample_count", eq(cval(a["sample_n"]), I["nt"]))
         j = api.index("j", I["nt"])
         api.check(P + "/sample_time_entry", eq(api.num(celem(api, a["sample_t"], j)) * sc(TIME), api.num(api.sel(I["ts"], j)) * tsc))
-        api.check(P + "/t_max", eq(api.num(cval(a["t_max"])) * sc(TIME), api.num(I["tmax"]) * tsc))
-        api.check(P + "/time_step", eq(api.num(cval(a["time_step"])) * sc(TIME), api.num(I["dt"]) * tsc))
-        api.check(P + "/sampling_interval", eq(api.num(cval(a["sampling_interval"])) * sc(TIME), api.num(I["si"]) * tsc))
+        tqs = Q.scale(api, I["tq_us"], TIME)
+        api.check(P + "/t_max", eq(api.num(cval(a["t_max"])) * sc(TIME), api.num(I["tmax"]) * tqs))
+        api.check(P + "/time_step", eq(api.num(cval(a["time_step"])) * sc(TIME), api.num(I["dt"]) * tqs))
+        api.check(P + "/sampling_interval", eq(api.num(cval(a["sampling_interval"])) * sc(TIME), api.num(I["si"]) * tqs))
         api.check(P + "/sampling_policy", eq(cval(a["sampling_policy"]), I["pol"]))
         api.check(P + "/init_state_processing", eq(cval(a["init_state_processing"]), I["mode"]))
         api.check(P + "/seed", eq(cval(a["seed"]), I["seed"]))
